@@ -1,9 +1,13 @@
 (* Check/C15.v — correspondence comparator for C15 (LinearLeastSquares, PolynomialRegression, LOESS).
    Lines (hexadecimal integers; floats as IEEE-754 bit patterns; lists length-prefixed):
-     15 0 xs ys hasw ws  k col_1 .. col_k        status params unmodified          LinearLeastSquares
+     15 0 xs ys hasw ws  k col_1 .. col_k        status params unmodified  params'        LinearLeastSquares
      15 1 xs ys hasw ws  degree                  status coeffs  nq (x F(x))*  lstatus lparams unmodified
-                                                                                   PolynomialRegression (+ LLS on monomials)
-     15 2 xs ys degree span                      status nq (x qstatus value)* unmodified      LOESS
+                                                 coeffs' nq (F(x)')* lparams'      PolynomialRegression (+ LLS on monomials)
+     15 2 xs ys degree span                      status nq (x qstatus value)* unmodified  nq (qstatus' value')*   LOESS
+   The primed fields are a HISTORY: the same results read AGAIN after the harness ran other fits (same shape on
+   other data, larger, smaller, a LOESS closure) while still holding them; for LOESS the second half of the
+   queries is evaluated after such fits and all queries once more at the end.  They must equal the first reading
+   (a returned slice / closure that shares storage with later calls fails here).
    status: 0 returned, 2 panicked.  [col_j] are the values the j-th term function wrote (the harness owns the
    term functions), so any basis — polynomial, trigonometric, exponential — reaches the model exactly.
 
@@ -14,8 +18,14 @@
      scaled by the condition number kappa_inf of the normal matrix when kappa > 1e7 (1e-13 * kappa);
      designs with kappa > 1e11 are tagged ill-conditioned and only the orthogonality check applies;
    * F(x) against the exact polynomial with Go's returned Coefficients (1e-12 of sum |c_i||x|^i);
-   * LOESS values against the model for the admissible window decisions (DESIGN 4.5);
-   * panics exactly where the model panics; arguments unmodified. *)
+   * LOESS values against the model for the admissible window decisions (DESIGN 4.5): the exact one and the one
+     the code takes on the correctly rounded float64 product span*n / sum xs[i]+xs[i+q];
+   * panics exactly where the model panics; arguments unmodified (also on the panicking paths).
+   Round 2 (audit, see meta/C15.json "audit"): NO case is accepted without the comparison the property names
+   having taken place, except the no-claim classes listed there (singular design CONFIRMED by the complete
+   exact solver; kappa > 1e11: orthogonality only).  Lines the harness never writes (no abscissa, no term, a
+   negative weight, a non-finite span, LOESS with len(xs) <> len(ys), a non-panicking PolynomialRegression
+   without a query of F) are MALFORMED, not accepted. *)
 From MM Require Import Base.Num Model.Fit.
 Local Open Scope Q_scope.
 
@@ -25,25 +35,30 @@ Definition p_optw : parser (option (list Q)) :=
 
 Inductive c15case :=
 | CLls (xs ys : list Q) (w : option (list Q)) (cols : list (list Q)) (st : Z) (params : list xreal) (unmod : bool)
+       (rparams : list xreal)
 | CPoly (xs ys : list Q) (w : option (list Q)) (deg : Z) (st : Z) (coeffs : list xreal) (qs : list (Q * xreal))
-        (lst : Z) (lparams : list xreal) (unmod : bool)
-| CLoess (xs ys : list Q) (deg : Z) (span : xreal) (st : Z) (qs : list (Q * Z * xreal)) (unmod : bool).
+        (lst : Z) (lparams : list xreal) (unmod : bool) (rcoeffs rfs rlparams : list xreal)
+| CLoess (xs ys : list Q) (deg : Z) (span : xreal) (st : Z) (qs : list (Q * Z * xreal)) (unmod : bool)
+         (rqs : list (Z * xreal)).
 
 Definition p_line : parser c15case :=
   do id <- pZ; if negb (id =? 15)%Z then (fun _ => None) else
   do op <- pZ;
   if (op =? 0)%Z then
     (do xs <- plist pQ; do ys <- plist pQ; do w <- p_optw; do cols <- plist_any (plist pQ);
-     do st <- pZ; do ps <- plist pX; do u <- pbool; pend (CLls xs ys w cols st ps u))
+     do st <- pZ; do ps <- plist pX; do u <- pbool; do rps <- plist pX; pend (CLls xs ys w cols st ps u rps))
   else if (op =? 1)%Z then
     (do xs <- plist pQ; do ys <- plist pQ; do w <- p_optw; do deg <- pZ;
      do st <- pZ; do cs <- plist pX;
      do qs <- plist_any (do x <- pQ; do v <- pX; pret (x, v));
-     do lst <- pZ; do lps <- plist pX; do u <- pbool; pend (CPoly xs ys w deg st cs qs lst lps u))
+     do lst <- pZ; do lps <- plist pX; do u <- pbool;
+     do rcs <- plist pX; do rfs <- plist pX; do rlps <- plist pX;
+     pend (CPoly xs ys w deg st cs qs lst lps u rcs rfs rlps))
   else if (op =? 2)%Z then
     (do xs <- plist pQ; do ys <- plist pQ; do deg <- pZ; do span <- pX;
      do st <- pZ; do qs <- plist_any (do x <- pQ; do s <- pZ; do v <- pX; pret (x, s, v));
-     do u <- pbool; pend (CLoess xs ys deg span st qs u))
+     do u <- pbool; do rqs <- plist_any (do s <- pZ; do v <- pX; pret (s, v));
+     pend (CLoess xs ys deg span st qs u rqs))
   else (fun _ => None).
 
 (* ---------- helpers ---------- *)
@@ -60,6 +75,19 @@ Fixpoint all_some {A} (l : list (option A)) : option (list A) :=
   | [] => Some []
   | Some a :: t => match all_some t with Some r => Some (a :: r) | None => None end
   | None :: _ => None
+  end.
+(* the re-read observables equal the first reading: same NaN-ness / infinity / number *)
+Fixpoint xlist_eq (a b : list xreal) : bool :=
+  match a, b with
+  | [], [] => true
+  | x :: a', y :: b' => xeq x y && xlist_eq a' b'
+  | _, _ => false
+  end.
+Fixpoint reread_ok (qs : list (Q * Z * xreal)) (rqs : list (Z * xreal)) : bool :=
+  match qs, rqs with
+  | [], [] => true
+  | (_, st, v) :: qs', (st', v') :: rqs' => (st =? st')%Z && xeq v v' && reread_ok qs' rqs'
+  | _, _ => false
   end.
 Fixpoint vadd (a b : list Q) : list Q :=
   match a, b with x :: a', y :: b' => qadd x y :: vadd a' b' | _, _ => [] end.
@@ -79,20 +107,33 @@ Definition unit_vec (k i : nat) : list Q := map (fun j => if (j =? i)%nat then 1
 Definition norm_inf (A : list (list Q)) : Q := Qlmax 0 (map (fun r => qsum (map Qabs r)) A).
 (* the exact solution of A.beta = b together with kappa_inf(A), from ONE elimination with the
    right-hand sides b, e_1 .. e_k (every returned column is verified by solve_multi_checked) *)
+(* |A^-1|_inf = max_i sum_c |N_c[i]| / |D| for the columns N_c / D of the inverse: integers only *)
+Definition inv_rowsums (k : nat) (invcols : list (list Z)) : list Z :=
+  fold_left (fun acc c => map (fun p => (fst p + Z.abs (snd p))%Z) (combine acc c)) invcols (repeat 0%Z k).
+Definition inv_norm_Z (k : nat) (invcols : list (list Z)) : Z := fold_left Z.max (inv_rowsums k invcols) 0%Z.
+Definition kappa_of (A : list (list Q)) (invcols : list (list Z)) (D : Z) : Q :=
+  Qred (norm_inf A * (inject_Z (inv_norm_Z (length A) invcols) / inject_Z (Z.abs D))).
+(* the exact solution of A.beta = b together with kappa_inf(A), from ONE elimination with the
+   right-hand sides b, e_1 .. e_k (every returned column is verified by solve_multi_Z) *)
 Definition solve_cond (A : list (list Q)) (b : list Q) : option (list Q * Q) :=
   let k := length A in
   match solve_multi_Z A (b :: map (unit_vec k) (seq 0 k)) with
-  | Some (N :: invcols, D) =>
-      (* |A^-1|_inf = max_i sum_c |N_c[i]| / |D| : integers only *)
-      let rowsums := fold_left (fun acc c => map (fun p => (fst p + Z.abs (snd p))%Z) (combine acc c)) invcols (repeat 0%Z k) in
-      let mx := fold_left Z.max rowsums 0%Z in
-      Some (sol_to_Q D N, Qred (norm_inf A * (inject_Z mx / inject_Z (Z.abs D))))
+  | Some (N :: invcols, D) => Some (sol_to_Q D N, kappa_of A invcols D)
   | _ => None
   end.
 Definition cond_inf (A : list (list Q)) : option Q :=
   match solve_cond A (repeat 0 (length A)) with Some (_, kap) => Some kap | None => None end.
 Definition fit_cond (cols : list (list Q)) (w y : list Q) : option (list Q * Q) :=
   solve_cond (normal_lhs cols w) (normal_rhs cols w y).
+(* the reference fit: the exact minimiser with kappa, or a design CONFIRMED singular by the complete solver
+   [solve_checked] (Proofs/FitSolve.v: it fails only on a matrix that is not regular).  FitBug (the fraction-free
+   elimination failed on a system the fall-back solves) never occurs; it is reported, not accepted. *)
+Inductive fitref := FitOk (beta : list Q) (kap : Q) | FitSingular | FitBug.
+Definition fit_ref (cols : list (list Q)) (w y : list Q) : fitref :=
+  match fit_cond cols w y with
+  | Some (beta, kap) => FitOk beta kap
+  | None => match lls_solve cols w y with None => FitSingular | Some _ => FitBug end
+  end.
 Definition kappa_ok : Q := 10000000.                     (* 1e7 *)
 Definition kappa_max : Q := 100000000000.                 (* 1e11 *)
 Definition tol_rel (kappa : Q) : Q :=
@@ -103,18 +144,20 @@ Definition tol_F : Q := 1 # 1000000000000.               (* 1e-12 *)
 (* sum_k |x|^k, k = 0..m-1 *)
 Definition abs_powsum (x : Q) (m : nat) : Q := qsum (map (fun k => qpow (Qabs x) k) (seq 0 m)).
 
-(* exact orthogonality defect of beta_go, column by column *)
+(* exact orthogonality defect of beta_go, column by column, against its natural scale
+   sum_i |c_ji| w_i (|y_i| + sum_l |c_li| |beta_l|) *)
+Definition orth_defect (cols : list (list Q)) (w y beta_go c : list Q) : Q :=
+  dot3 c w (vsub y (fitted false (length y) cols beta_go)).
+Definition orth_scale (cols : list (list Q)) (w y beta_go c : list Q) : Q :=
+  dot3 (map Qabs c) w (vadd (map Qabs y) (fitted true (length y) cols beta_go)).
 Definition orth_ok (cols : list (list Q)) (w y beta_go : list Q) : bool :=
-  let n := length y in
-  let r := vsub y (fitted false n cols beta_go) in
-  let s := vadd (map Qabs y) (fitted true n cols beta_go) in
-  forallb (fun c => Qle_bool (Qabs (dot3 c w r)) (tol_orth * dot3 (map Qabs c) w s)) cols.
+  forallb (fun c => Qle_bool (Qabs (orth_defect cols w y beta_go c)) (tol_orth * orth_scale cols w y beta_go c)) cols.
 
 (* coefficients against the exact minimiser *)
+Definition coeffs_tol (tr : Q) (ymax : Q) (beta : list Q) : Q := tr * Qmaxabs beta + (1 # 1000000000000) * ymax.
 Definition coeffs_ok (tr : Q) (ymax : Q) (beta beta_go : list Q) : bool :=
-  let tol := tr * Qmaxabs beta + (1 # 1000000000000) * ymax in
   (length beta =? length beta_go)%nat &&
-  forallb (fun p => within tol (fst p) (snd p)) (combine beta beta_go).
+  forallb (fun p => within (coeffs_tol tr ymax beta) (fst p) (snd p)) (combine beta beta_go).
 
 (* tags *)
 Definition T_W : Z := 1.       (* weights given *)
@@ -134,32 +177,29 @@ Fixpoint has_dup (l : list Q) : bool :=
   match l with [] => false | a :: t => existsb (Qeqb a) t || has_dup t end.
 Definition degen (xs wl : list Q) : bool := existsb (fun v => Qeqb v 0) wl || has_dup xs.
 
-(* the common part of LLS and POLY, given the exact minimiser [beta] and kappa (None: > representable,
-   treated as ill-conditioned): returns (tag bits, None) or (tag bits, Some (pos, diag)) *)
-Definition check_fit (cols : list (list Q)) (w : list Q) (y : list Q) (beta : list Q) (kappa : option Q)
+(* the common part of LLS and POLY, given the exact minimiser [beta] and kappa:
+   returns (tag bits, None) or (tag bits, Some (pos, diag)) *)
+Definition check_fit (cols : list (list Q)) (w : list Q) (y : list Q) (beta : list Q) (kappa : Q)
   (go : list xreal) : Z * option (Z * list Z) :=
   match all_fin go with
   | None => (0%Z, Some (1%Z, []))                                    (* NaN/Inf coefficient *)
   | Some beta_go =>
       if negb (length beta_go =? length cols)%nat then (0%Z, Some (2%Z, []))
       else if negb (orth_ok cols w y beta_go) then (0%Z, Some (3%Z, concat (map qdiag beta)))
-      else
-        match kappa with
-        | Some k =>
-            if Qle_bool k kappa_max then
-              if coeffs_ok (tol_rel k) (Qmaxabs y) beta beta_go then (0%Z, None)
-              else (0%Z, Some (4%Z, concat (map qdiag beta)))
-            else (T_ILL, None)
-        | None => (T_ILL, None)
-        end
+      else if Qle_bool kappa kappa_max then
+        if coeffs_ok (tol_rel kappa) (Qmaxabs y) beta beta_go then (0%Z, None)
+        else (0%Z, Some (4%Z, concat (map qdiag beta)))
+      else (T_ILL, None)
   end.
 
 (* POLY: F(x) against Go's own coefficients and against the model *)
+Definition F_scale (beta_go : list Q) (x : Q) : Q :=
+  qsum (map (fun p => Qabs (fst p) * qpow (Qabs x) (snd p)) (combine beta_go (seq 0 (length beta_go)))).
 Definition F_ok (beta_go : list Q) (beta : option (list Q * Q)) (q : Q * xreal) : bool :=
   let '(x, v) := q in
   match polyF beta_go x, v with
   | Some own, XFin o =>
-      let sc := qsum (map (fun p => Qabs (fst p) * qpow (Qabs x) (snd p)) (combine beta_go (seq 0 (length beta_go)))) in
+      let sc := F_scale beta_go x in
       within (tol_F * sc) own o &&
       match beta with
       | Some (b, tr) =>
@@ -176,180 +216,200 @@ Definition first_bad {A} (f : A -> bool) (l : list A) : option Z :=
   (fix go (l : list A) (i : Z) := match l with [] => None | a :: t => if f a then go t (i + 1)%Z else Some i end) l 0%Z.
 
 (* ---------- LOESS ---------- *)
-Definition eps_q : Q := 1 # (2 ^ 50)%positive.
 Definition dedup_nat (l : list nat) : list nat := nodup Nat.eq_dec l.
-(* q is a binary64 number: m * 2^e with |m| < 2^53, e >= -1074, below the overflow threshold.  When the
-   exact value of a floating-point operation is such a number the operation is EXACT, the code's decision
-   is the exact decision and NO borderline alternative is accepted (DESIGN 4.5 applies only where rounding
-   can occur). *)
-Definition f64_exact (q : Q) : bool :=
+(* round-to-nearest-even to 53 significant bits of a dyadic rational (sign-symmetric).  span*float64(n) and
+   xs[i]+xs[i+q] are each ONE correctly rounded operation on exactly known binary64 numbers, so the number the
+   code compares is known exactly (a sum that lands in the subnormal range is exact and has fewer than 53
+   bits; nothing here is near overflow).  DESIGN 4.5: the admissible decisions are the EXACT one (the
+   property's real-number reading) and the one taken on the rounded number (the code's); they coincide
+   whenever the operation is exact, and then no alternative is accepted. *)
+Definition round53_pos (n : Z) (d : positive) : Q :=
+  let bl := (Z.log2 n + 1)%Z in
+  if (bl <=? 53)%Z then n # d else
+  let sh := (bl - 53)%Z in
+  let m := Z.shiftr n sh in
+  let rem := (n - Z.shiftl m sh)%Z in
+  let half := Z.shiftl 1 (sh - 1) in
+  let m' := if (half <? rem)%Z || ((half =? rem)%Z && Z.odd m) then (m + 1)%Z else m in
+  Z.shiftl m' sh # d.
+Definition round53 (q : Q) : Q :=
   let r := Qred q in
   match Qnum r with
-  | Z0 => true
-  | Zpos p | Zneg p =>
-      let '(od, _) := pos_odd_part p 0 in
-      let '(dd, k) := pos_odd_part (Qden r) 0 in
-      Pos.eqb dd 1 && (Pos.size_nat od <=? 53)%nat && (k <=? 1074)%Z && Qle_bool (Qabs r) (two_pow 1023)
+  | Z0 => 0
+  | Zpos p => round53_pos (Zpos p) (Qden r)
+  | Zneg p => - round53_pos (Zpos p) (Qden r)
   end.
-(* admissible window widths: ceil of span*n exactly; if the product span*float64(n) is not exact, also with
-   the product moved by one part in 2^50 *)
+(* q = min(n, ceil(p)) for the product p (loess.go:45-48) *)
+Definition q_of_product (n : nat) (p : Q) : nat :=
+  let c := ceilQ p in if (Z.of_nat n <=? c)%Z then n else Z.to_nat c.
+(* admissible window widths: from the exact product span*n and from the float64 product *)
 Definition q_cands (n : nat) (span : Q) : list nat :=
-  if f64_exact (span * Qofnat n) then [loess_q n span]
-  else dedup_nat [loess_q n span; loess_q n (span * (1 - eps_q)); loess_q n (span * (1 + eps_q))].
-(* the search predicate as the code evaluates it: xs[i]+xs[i+q] is exact when the sum is a binary64 number
-   (then the comparison with x*2 is the exact one), otherwise within one part in 2^50 of the sum *)
-Definition window_pred_fl (e : Q) (xs : list Q) (q : nat) (x : Q) (i : nat) : bool :=
+  dedup_nat [loess_q n span; q_of_product n (round53 (span * Qofnat n))].
+(* the search predicate as the code evaluates it: (xs[i]+xs[i+q]) rounded >= x*2 (x*2 is exact) *)
+Definition window_pred_fl (xs : list Q) (q : nat) (x : Q) (i : nat) : bool :=
   match nth_error xs i, nth_error xs (i + q) with
-  | Some a, Some b =>
-      let s := a + b in
-      if f64_exact s && f64_exact (x * 2) then Qle_bool (x * 2) s else Qle_bool (x * 2) (s + e * Qabs s)
+  | Some a, Some b => Qle_bool (x * 2) (round53 (a + b))
   | _, _ => true
   end.
-Definition window_start_fl (e : Q) (xs : list Q) (q : nat) (x : Q) : nat :=
-  if (q <? length xs)%nat then search (length xs - q) (window_pred_fl e xs q x) else O.
+Definition window_start_fl (xs : list Q) (q : nat) (x : Q) : nat :=
+  if (q <? length xs)%nat then search (length xs - q) (window_pred_fl xs q x) else O.
 Definition n0_cands (xs : list Q) (q : nat) (x : Q) : list nat :=
-  dedup_nat [window_start 0 xs q x; window_start_fl eps_q xs q x; window_start_fl (- eps_q) xs q x].
+  dedup_nat [window_start 0 xs q x; window_start_fl xs q x].
 
-(* one query under one window decision: 0 agrees, 1 model singular or ill-conditioned (no claim), 2 disagrees.
-   Same pieces as Model.loess_at (loess_design, monomials, the verified solver, polyF); the solver is
-   called once with the extra right-hand sides that give kappa. *)
+Definition loess_tol (kappa : Q) (beta cy : list Q) (x : Q) : Q :=
+  tol_rel kappa * Qmaxabs beta * abs_powsum x (length beta) + (1 # 1000000000000) * Qmaxabs cy.
+(* one query under one window decision: 0 agrees, 1 no claim (d = 0: the weights are 0/0; local design confirmed
+   singular; kappa > 1e11) but the call returned, 2 disagrees.  Same pieces as Model.loess_at (loess_design,
+   monomials, the verified solver, polyF); the solver is called once with the extra right-hand sides that give kappa. *)
 Definition loess_query (sx sy : list Q) (deg : Z) (q n0 : nat) (x : Q) (st : Z) (v : xreal) : Z :=
   match loess_design sx sy q n0 x with
   | FPanic => if (st =? 2)%Z then 0%Z else 2%Z
-  | FSingular => 1%Z
+  | FSingular => if (st =? 0)%Z then 1%Z else 2%Z
   | FOk (cx, cy, w) =>
-      if (length cx <? q)%nat then (if (st =? 2)%Z then 0%Z else 1%Z) else   (* slice out of range *)
-      match fit_cond (monomials (Z.to_nat deg) cx) w cy with
-      | None => 1%Z
-      | Some (beta, kappa) =>
-          if negb (st =? 0)%Z then 2%Z else
+      if negb (st =? 0)%Z then 2%Z else
+      match fit_ref (monomials (Z.to_nat deg) cx) w cy with
+      | FitBug => 2%Z
+      | FitSingular => 1%Z
+      | FitOk beta kappa =>
           match v, polyF beta x with
           | XFin o, Some e =>
               if Qle_bool kappa kappa_max then
-                if within (tol_rel kappa * Qmaxabs beta * abs_powsum x (length beta)
-                           + (1 # 1000000000000) * Qmaxabs cy) e o then 0%Z else 2%Z
+                if within (loess_tol kappa beta cy x) e o then 0%Z else 2%Z
               else 1%Z
           | _, _ => 2%Z
           end
       end
   end.
 
-(* all queries under window width q: (worst code over queries taking the best admissible start,
-   whether a non-exact start was needed, tag bits, first failing query) *)
-Fixpoint loess_queries (sx sy : list Q) (deg : Z) (q : nat) (qs : list (Q * Z * xreal)) (i : Z)
-  : bool * bool * Z * option Z :=
-  match qs with
-  | [] => (true, false, 0%Z, None)
-  | (x, st, v) :: t =>
-      let n0 := window_start 0 sx q x in
-      let c0 := loess_query sx sy deg q n0 x st v in
-      let alts := filter (fun m => negb (m =? n0)%nat) (n0_cands sx q x) in
-      let calt := existsb (fun m => negb (loess_query sx sy deg q m x st v =? 2)%Z) alts in
-      let ok := negb (c0 =? 2)%Z || calt in
-      let border := (c0 =? 2)%Z && calt in
-      let n := length sx in
-      let tg := if (c0 =? 0)%Z && (st =? 0)%Z then
-                  Z.lor T_LOESS
-                    (Z.lor (bit ((0 <? n0)%nat && (n0 + q <? n)%nat) T_INTERIOR)
-                           (bit ((q <? n)%nat && ((n0 =? 0)%nat || (n0 + q =? n)%nat)) T_EDGEWIN))
-                else 0%Z in
-      let '(ok', border', tg', bad) := loess_queries sx sy deg q t (i + 1)%Z in
-      (ok && ok', border || border', Z.lor tg tg', if ok then bad else Some i)
-  end.
+(* one query under window width q: 0 agrees at the exact window start, 1 no claim at the exact start,
+   3 disagrees at the exact start but is consistent (code 0 or 1) with the start the float search takes
+   (borderline), 2 disagrees *)
+Definition query_verdict (sx sy : list Q) (deg : Z) (q : nat) (qd : Q * Z * xreal) : Z :=
+  let '(x, st, v) := qd in
+  let n0 := window_start 0 sx q x in
+  let c0 := loess_query sx sy deg q n0 x st v in
+  if negb (c0 =? 2)%Z then c0
+  else if existsb (fun m => negb (loess_query sx sy deg q m x st v =? 2)%Z)
+                  (filter (fun m => negb (m =? n0)%nat) (n0_cands sx q x)) then 3%Z else 2%Z.
+Definition query_tag (sx : list Q) (q : nat) (qd : Q * Z * xreal) (c : Z) : Z :=
+  let '(x, st, _) := qd in
+  if (c =? 0)%Z && (st =? 0)%Z then
+    let n0 := window_start 0 sx q x in
+    let n := length sx in
+    Z.lor T_LOESS
+      (Z.lor (bit ((0 <? n0)%nat && (n0 + q <? n)%nat) T_INTERIOR)
+             (bit ((q <? n)%nat && ((n0 =? 0)%nat || (n0 + q =? n)%nat)) T_EDGEWIN))
+  else 0%Z.
+Definition first_two (vs : list Z) : option Z := first_bad (fun c => negb (c =? 2)%Z) vs.
+(* the float width is accepted if no query disagrees under it *)
+Definition alt_q_ok (vs' : list Z) : bool := forallb (fun c => negb (c =? 2)%Z) vs'.
 
 Definition check_loess (xs ys : list Q) (deg : Z) (span : xreal) (st : Z) (qs : list (Q * Z * xreal)) (unmod : bool)
-  : list Z :=
-  let panics := match span with
-                | XFin s => (deg <? 0)%Z || Qle_bool s 0
-                | XInf neg => (deg <? 0)%Z || neg
-                | XNaN => (deg <? 0)%Z
-                end in
-  if panics then (if (st =? 2)%Z then verdict V_OK 0 (-1) [] else verdict V_MISMATCH 0 0 [])
-  else match span with
+  (rqs : list (Z * xreal)) : list Z :=
+  match span with
   | XFin s =>
-      if negb (st =? 0)%Z then verdict V_MISMATCH 0 0 []
-      else if negb unmod then verdict V_MISMATCH 0 1 []
-      else
-        let n := length xs in
-        let '(sx, sy) := loess_prepare xs ys in
-        let qe := loess_q n s in
-        let base := Z.lor (Z.lor (bit (negb (sortedb xs)) T_UNSORTED) (bit (qe =? n)%nat T_FULL)) (bit (has_dup xs) T_DEGEN) in
-        let '(ok, border, tg, bad) := loess_queries sx sy deg qe qs 0%Z in
-        if ok then
-          let nontrivial := negb (tg =? 0)%Z in
+    if negb (length xs =? length ys)%nat then verdict V_MALFORMED 0 (-1) []
+    else if (deg <? 0)%Z || Qle_bool s 0 then
+      (if (st =? 2)%Z && unmod && (length qs =? 0)%nat && (length rqs =? 0)%nat
+       then verdict V_OK 0 (-1) [] else verdict V_MISMATCH 0 0 [])
+    else if negb (st =? 0)%Z then verdict V_MISMATCH 0 0 []
+    else if negb unmod then verdict V_MISMATCH 0 1 []
+    else if (length qs =? 0)%nat then verdict V_MALFORMED 0 (-1) []     (* the closure was never called *)
+    else if negb (reread_ok qs rqs) then verdict V_MISMATCH 0 1 [7%Z]   (* a later evaluation differs from the first *)
+    else
+      let n := length xs in
+      let '(sx, sy) := loess_prepare xs ys in
+      let qe := loess_q n s in
+      let base := Z.lor (Z.lor (bit (negb (sortedb xs)) T_UNSORTED) (bit (qe =? n)%nat T_FULL)) (bit (has_dup xs) T_DEGEN) in
+      let vs := map (query_verdict sx sy deg qe) qs in
+      match first_two vs with
+      | None =>
+          let tg := fold_left Z.lor (map (fun p => query_tag sx qe (fst p) (snd p)) (combine qs vs)) 0%Z in
+          let border := existsb (Z.eqb 3) vs in
           verdict (if border then V_BORDERLINE else V_OK)
-                  (if nontrivial then Z.lor (Z.lor T_LOESS base) (Z.lor tg (bit border T_BORDER)) else 0%Z) (-1) []
-        else
+                  (if (tg =? 0)%Z then 0%Z else Z.lor (Z.lor T_LOESS base) (Z.lor tg (bit border T_BORDER))) (-1) []
+      | Some i =>
           let alts := filter (fun m => negb (m =? qe)%nat) (q_cands n s) in
-          if existsb (fun q => let '(ok', _, _, _) := loess_queries sx sy deg q qs 0%Z in ok') alts
+          if existsb (fun q => alt_q_ok (map (query_verdict sx sy deg q) qs)) alts
           then verdict V_BORDERLINE (Z.lor (Z.lor T_LOESS base) T_BORDER) (-1) []
-          else verdict V_MISMATCH (Z.lor T_LOESS base) (match bad with Some i => i + 2 | None => -1 end)%Z
+          else verdict V_MISMATCH (Z.lor T_LOESS base) (i + 2)%Z
                  (Z.of_nat qe ::
-                  match bad with
-                  | Some i => match nth_error qs (Z.to_nat i) with
-                              | Some (x, _, _) =>
-                                  let n0 := window_start 0 sx qe x in
-                                  Z.of_nat n0 ::
-                                  match loess_at sx sy deg qe n0 x with
-                                  | FOk (_, e) => qdiag e | _ => [] end
-                              | None => [] end
+                  match nth_error qs (Z.to_nat i) with
+                  | Some (x, _, _) =>
+                      let n0 := window_start 0 sx qe x in
+                      Z.of_nat n0 ::
+                      match loess_at sx sy deg qe n0 x with
+                      | FOk (_, e) => qdiag e | _ => [] end
                   | None => [] end)
-  | _ => verdict V_OK 0 (-1) []      (* span = +Inf / NaN, degree >= 0: outside the property *)
+      end
+  | _ => verdict V_MALFORMED 0 (-1) []      (* span = +-Inf / NaN: the harness refuses such a case *)
   end.
 
 (* ---------- LLS / POLY ---------- *)
 Definition lens_panic (nx : nat) (ys : list Q) (w : option (list Q)) : bool :=
   negb (nx =? length ys)%nat || match w with Some l => negb (nx =? length l)%nat | None => false end.
+Definition nonneg_w (w : option (list Q)) : bool :=
+  match w with Some l => forallb (Qle_bool 0) l | None => true end.
+Definition hasw (w : option (list Q)) : bool := match w with Some _ => true | None => false end.
 
 Definition check_lls (xs ys : list Q) (w : option (list Q)) (cols : list (list Q)) (st : Z) (ps : list xreal) (unmod : bool)
-  : list Z :=
+  (rps : list xreal) : list Z :=
   let nx := length xs in
-  if lens_panic nx ys w then (if (st =? 2)%Z then verdict V_OK 0 (-1) [] else verdict V_MISMATCH 0 0 [])
+  if (nx =? 0)%nat || (length cols =? 0)%nat || negb (nonneg_w w) then verdict V_MALFORMED 0 (-1) []
+  else if lens_panic nx ys w then
+    (if (st =? 2)%Z && unmod && (length ps =? 0)%nat && (length rps =? 0)%nat
+     then verdict V_OK 0 (-1) [] else verdict V_MISMATCH 0 0 [])
   else if negb (forallb (fun c => (length c =? nx)%nat) cols) then verdict V_MALFORMED 0 (-1) []
   else if negb (st =? 0)%Z then verdict V_MISMATCH 0 0 []
   else if negb unmod then verdict V_MISMATCH 0 5 []
+  else if negb (xlist_eq ps rps) then verdict V_MISMATCH 0 7 []     (* the parameters changed after they were returned *)
   else
     let wl := weights_or_ones nx w in
-    match fit_cond cols wl ys with
-    | None => verdict V_OK 0 (-1) []                   (* singular design: outside the property *)
-    | Some (beta, kap) =>
-      let kappa := Some kap in
-      let tag := Z.lor (Z.lor T_LLS (bit (match w with Some _ => true | None => false end) T_W)) (bit (degen xs wl) T_DEGEN) in
-      match check_fit cols wl ys beta kappa ps with
+    match fit_ref cols wl ys with
+    | FitBug => verdict V_MALFORMED 0 (-1) []
+    | FitSingular => verdict V_OK 0 (-1) []            (* confirmed singular design: outside the property *)
+    | FitOk beta kap =>
+      let tag := Z.lor (Z.lor T_LLS (bit (hasw w) T_W)) (bit (degen xs wl) T_DEGEN) in
+      match check_fit cols wl ys beta kap ps with
       | (t, None) => verdict V_OK (Z.lor tag t) (-1) []
       | (t, Some (pos, diag)) => verdict V_MISMATCH (Z.lor tag t) pos diag
       end
     end.
 
 Definition check_poly (xs ys : list Q) (w : option (list Q)) (deg : Z) (st : Z) (cs : list xreal)
-  (qs : list (Q * xreal)) (lst : Z) (lps : list xreal) (unmod : bool) : list Z :=
+  (qs : list (Q * xreal)) (lst : Z) (lps : list xreal) (unmod : bool) (rcs rfs rlps : list xreal) : list Z :=
   let nx := length xs in
-  if (deg <? 0)%Z || lens_panic nx ys w then (if (st =? 2)%Z then verdict V_OK 0 (-1) [] else verdict V_MISMATCH 0 0 [])
+  if (nx =? 0)%nat || negb (nonneg_w w) then verdict V_MALFORMED 0 (-1) []
+  else if (deg <? 0)%Z || lens_panic nx ys w then
+    (if (st =? 2)%Z && unmod && (length cs =? 0)%nat && (length qs =? 0)%nat
+        && (length rcs =? 0)%nat && (length rfs =? 0)%nat && (length rlps =? 0)%nat
+     then verdict V_OK 0 (-1) [] else verdict V_MISMATCH 0 0 [])
   else if negb (st =? 0)%Z then verdict V_MISMATCH 0 0 []
   else if negb unmod then verdict V_MISMATCH 0 5 []
+  else if (length qs =? 0)%nat then verdict V_MALFORMED 0 (-1) []     (* F was not observed *)
+  else if negb (xlist_eq cs rcs && xlist_eq (map snd qs) rfs && xlist_eq lps rlps)
+  then verdict V_MISMATCH 0 7 []      (* Coefficients, F or the twin's parameters changed after they were returned *)
   else
     let wl := weights_or_ones nx w in
     let cols := monomials (Z.to_nat deg) xs in
-    match fit_cond cols wl ys with
-    | None => verdict V_OK 0 (-1) []                   (* singular design: outside the property *)
-    | Some (beta, kap) =>
-      let kappa := Some kap in
-      let tag := Z.lor (Z.lor (Z.lor T_POLY (bit (match w with Some _ => true | None => false end) T_W)) (bit (3 <=? deg)%Z T_DEG3))
+    match fit_ref cols wl ys with
+    | FitBug => verdict V_MALFORMED 0 (-1) []
+    | FitSingular => verdict V_OK 0 (-1) []            (* confirmed singular design: outside the property *)
+    | FitOk beta kap =>
+      let tag := Z.lor (Z.lor (Z.lor T_POLY (bit (hasw w) T_W)) (bit (3 <=? deg)%Z T_DEG3))
                        (bit (degen xs wl) T_DEGEN) in
-      match check_fit cols wl ys beta kappa cs with
+      match check_fit cols wl ys beta kap cs with
       | (t, Some (pos, diag)) => verdict V_MISMATCH (Z.lor tag t) pos diag
       | (t, None) =>
           (* the same through LinearLeastSquares on the monomial basis *)
           if negb (lst =? 0)%Z then verdict V_MISMATCH (Z.lor tag t) 6 [] else
-          match check_fit cols wl ys beta kappa lps with
+          match check_fit cols wl ys beta kap lps with
           | (_, Some (pos, diag)) => verdict V_MISMATCH (Z.lor tag t) (10 + pos) diag
           | (_, None) =>
               match all_fin cs with
               | None => verdict V_MISMATCH (Z.lor tag t) 1 []
               | Some beta_go =>
-                  let model := match kappa with
-                               | Some k => if (t =? 0)%Z then Some (beta, tol_rel k) else None
-                               | None => None end in
+                  let model := if Qle_bool kap kappa_max then Some (beta, tol_rel kap) else None in
                   match first_bad (F_ok beta_go model) qs with
                   | None => verdict V_OK (Z.lor tag t) (-1) []
                   | Some i => verdict V_MISMATCH (Z.lor tag t) (20 + i) []
@@ -362,7 +422,7 @@ Definition check_poly (xs ys : list Q) (w : option (list Q)) (deg : Z) (st : Z) 
 Definition check_C15 (line : list Z) : list Z :=
   match p_line line with
   | None => verdict V_MALFORMED 0 (-1) []
-  | Some (CLls xs ys w cols st ps u, _) => check_lls xs ys w cols st ps u
-  | Some (CPoly xs ys w deg st cs qs lst lps u, _) => check_poly xs ys w deg st cs qs lst lps u
-  | Some (CLoess xs ys deg span st qs u, _) => check_loess xs ys deg span st qs u
+  | Some (CLls xs ys w cols st ps u rps, _) => check_lls xs ys w cols st ps u rps
+  | Some (CPoly xs ys w deg st cs qs lst lps u rcs rfs rlps, _) => check_poly xs ys w deg st cs qs lst lps u rcs rfs rlps
+  | Some (CLoess xs ys deg span st qs u rqs, _) => check_loess xs ys deg span st qs u rqs
   end.
